@@ -175,6 +175,25 @@ func (x *Exec) verify(con *Contract) (fres *FuncResult) {
 		h0 := st2.heap0
 		pctx.old = &h0
 		pctx.bindResults(fn.Signature, res)
+		// result leaves, for replay predictions
+		x.outputs = nil
+		if rt := fn.Signature.Results(); rt.Len() > 0 {
+			func() {
+				defer func() { recover() }()
+				var rv []*Val
+				if rt.Len() == 1 {
+					rv = []*Val{res}
+				} else {
+					rv = res.F
+				}
+				for i := 0; i < rt.Len(); i++ {
+					ls := x.valLeaves(st2, rv[i], rt.At(i).Type())
+					for j, lf := range flatten(rt.At(i).Type()) {
+						x.outputs = append(x.outputs, InputVar{Name: fmt.Sprintf("result%d%s", i, lf.Path), Term: ls[j].s, Sort: lf.Sort})
+					}
+				}
+			}()
+		}
 		for _, cl := range con.of("ensures", -1) {
 			t := pctx.evalBool(cl)
 			x.check(st2, t, "postcondition", cl.ID, x.site(fn.Pos()), cl.Text)
